@@ -76,6 +76,7 @@ type tfun struct {
 	text     string
 	skipped  []string
 	inputs   map[string]string
+	calls    map[string]string
 	capture  bool
 	view     string   // suffix of the structure name: a separate record of the receiver's fields for this group of functions
 	opaque   bool     // argument-less interface-method calls become parameters
@@ -577,6 +578,10 @@ func (e *env) assigned(stmts []ast.Stmt, out map[string]bool) {
 				if e.f.capture && (strings.HasSuffix(txt, ".Emit") || strings.HasSuffix(txt, ".emit")) {
 					out["ev"] = true
 				}
+				if nm, ok := e.f.calls[txt]; ok {
+					out[nm+"Called"] = true
+					out[nm+"Arg"] = true
+				}
 				if sel, ok := v.Fun.(*ast.SelectorExpr); ok {
 					if id, ok := sel.X.(*ast.Ident); ok && id.Name == e.rname {
 						if cal, ok := e.t.funs[e.f.recv+"."+sel.Sel.Name]; ok && cal.mutates {
@@ -784,6 +789,11 @@ func (e *env) block(stmts []ast.Stmt, fall string, ind string) string {
 					}
 				}
 				sb.WriteString(fmt.Sprintf("%slet ev := %q\n", ind, e.t.p.str(call.Args[0])+"|"+msg))
+				continue
+			}
+			if nm, ok := e.f.calls[txt]; ok && len(call.Args) == 1 {
+				x, _ := e.expr(call.Args[0])
+				sb.WriteString(fmt.Sprintf("%slet %sCalled := true\n%slet %sArg := %s\n", ind, nm, ind, nm, x))
 				continue
 			}
 			if txt == "atomic.AddUint32" {
@@ -1085,6 +1095,8 @@ type tspec struct {
 	view                   string
 	sliceAt                string            // like sliceFrom, but the first statement (anywhere in the body, also inside closures and select arms) whose text starts with this
 	inputs                 map[string]string // source text of an expression -> "name:type" (int|bool): an input of the translated code
+	sliceHas               string            // ... and contains this
+	captureCalls           map[string]string // text of a called function -> name: the statement `f(x)` sets <name>Called := true, <name>Arg := x
 	captureEmit            bool              // an Emit / emit call assigns its event (and message constant) to the string variable `ev`
 	until                  string            // translate only the statements before the first call statement of this function
 	opaque                 bool
@@ -1099,7 +1111,7 @@ func (t *translator) translate(sp tspec) (res *tfun, why string) {
 	if st == nil {
 		return nil, "receiver struct not found"
 	}
-	f := &tfun{lean: sp.lean, decl: fd, recv: sp.recv, st: st, opaque: sp.opaque, view: sp.view, inputs: sp.inputs, capture: sp.captureEmit}
+	f := &tfun{lean: sp.lean, decl: fd, recv: sp.recv, st: st, opaque: sp.opaque, view: sp.view, inputs: sp.inputs, capture: sp.captureEmit, calls: sp.captureCalls}
 	e := &env{t: t, f: f, vars: map[string]gty{}, lnames: map[string]string{}}
 	e.rname = fd.Recv.List[0].Names[0].Name
 	defer func() {
@@ -1164,7 +1176,7 @@ func (t *translator) translate(sp tspec) (res *tfun, why string) {
 				list = b.Body
 			}
 			for i, st := range list {
-				if strings.HasPrefix(t.p.str(st), sp.sliceAt) && i+sp.sliceN <= len(list) {
+				if strings.HasPrefix(t.p.str(st), sp.sliceAt) && strings.Contains(t.p.str(st), sp.sliceHas) && i+sp.sliceN <= len(list) {
 					found = list[i : i+sp.sliceN]
 					return false
 				}
@@ -1179,6 +1191,10 @@ func (t *translator) translate(sp tspec) (res *tfun, why string) {
 		sp.sliceFrom = sp.sliceAt
 		if sp.captureEmit {
 			e.setVar("ev", tErr)
+		}
+		for _, nm := range sp.captureCalls {
+			e.setVar(nm+"Called", tBool)
+			e.setVar(nm+"Arg", tInt)
 		}
 	} else if sp.sliceFrom != "" {
 		start := -1
@@ -1230,6 +1246,9 @@ func (t *translator) translate(sp tspec) (res *tfun, why string) {
 				zero := "0"
 				if ty == tErr {
 					zero = "\"\""
+				}
+				if ty == tBool || ty == tPtr {
+					zero = "false"
 				}
 				pre += fmt.Sprintf("  let %s : %s := %s\n", e.lnames[nm], ty.lean(), zero)
 			}
@@ -1382,6 +1401,13 @@ func transAll(v1, v2 *pkg) string {
 		{file: "batcher.go", recv: "Batcher", name: "trySetTargetToZero", lean: "v1_trySetTargetToZero"},
 		{file: "batcher.go", recv: "Batcher", name: "Start", lean: "v1_auditArm", sliceAt: "if len(r.buffer) < 1 && time.Since(lastFlushWithRecords)", sliceN: 1, sliceOut: []string{"ev"}, captureEmit: true,
 			inputs: map[string]string{"len(r.buffer)": "bufLen:int", "time.Since(lastFlushWithRecords)": "sinceLast:int", "r.maxOperationTime": "mot:int"}},
+		{file: "batcher.go", recv: "Batcher", name: "getTarget", lean: "v1_getTarget"},
+		{file: "batcher.go", recv: "Batcher", name: "NeedsCapacity", lean: "v1_NeedsCapacity"},
+		{file: "batcher.go", recv: "Batcher", name: "Start", lean: "v1_capacityArm", sliceAt: "if r.ratelimiter != nil {", sliceHas: "r.NeedsCapacity()", sliceN: 1, sliceOut: []string{"giveMeCalled", "giveMeArg"},
+			inputs: map[string]string{"r.ratelimiter != nil": "limited:bool"}, captureCalls: map[string]string{"r.ratelimiter.GiveMe": "giveMe"}},
+		{file: "batcher.go", recv: "Batcher", name: "resume", lean: "v1_resume", view: "_ph"},
+		{file: "batcher.go", recv: "Batcher", name: "Start", lean: "v1_pauseArm", view: "_ph", sliceAt: "r.emit(PauseEvent", sliceN: 4, sliceOut: []string{"sleepCalled", "sleepArg"},
+			inputs: map[string]string{"r.pauseTime": "pauseTime:int"}, captureCalls: map[string]string{"time.Sleep": "sleep"}},
 		{file: "batcher.go", recv: "Batcher", name: "Start", lean: "v1_effMot", sliceAt: "maxOperationTime := r.maxOperationTime", sliceN: 2, sliceOut: []string{"maxOperationTime"},
 			inputs: map[string]string{"r.maxOperationTime": "mot:int", "watcher.MaxOperationTime()": "wMot:int"}},
 		{file: "batcher.go", recv: "Batcher", name: "applyDefaults", lean: "v1_applyDefaults", view: "_cfg"},
@@ -1407,6 +1433,12 @@ func transAll(v1, v2 *pkg) string {
 		{file: "batcher.go", recv: "batcher", name: "confirmTargetIsZero", lean: "v2_confirmTargetIsZero"},
 		{file: "batcher.go", recv: "batcher", name: "Start", lean: "v2_auditArm", sliceAt: "if r.buffer.size() == 0 && time.Since(r.lastFlushWithRecords)", sliceN: 1, sliceOut: []string{"ev"}, captureEmit: true,
 			inputs: map[string]string{"r.buffer.size()": "bufSize:int", "time.Since(r.lastFlushWithRecords)": "sinceLast:int", "r.maxOperationTime": "mot:int", "r.confirmInflightIsZero()": "inflightIsZero:bool"}},
+		{file: "batcher.go", recv: "batcher", name: "NeedsCapacity", lean: "v2_NeedsCapacity"},
+		{file: "batcher.go", recv: "batcher", name: "Start", lean: "v2_capacityArm", sliceAt: "if r.ratelimiter != nil {", sliceHas: "r.NeedsCapacity()", sliceN: 1, sliceOut: []string{"giveMeCalled", "giveMeArg"},
+			inputs: map[string]string{"r.ratelimiter != nil": "limited:bool", "r.emitRequest": "emitRequest:bool"}, captureCalls: map[string]string{"r.ratelimiter.GiveMe": "giveMe"}},
+		{file: "batcher.go", recv: "batcher", name: "resume", lean: "v2_resume", view: "_ph"},
+		{file: "batcher.go", recv: "batcher", name: "Start", lean: "v2_pauseArm", view: "_ph", sliceAt: "r.Emit(PauseEvent", sliceN: 4, sliceOut: []string{"sleepCalled", "sleepArg"},
+			inputs: map[string]string{"r.pauseTime": "pauseTime:int"}, captureCalls: map[string]string{"time.Sleep": "sleep"}},
 		{file: "batcher.go", recv: "batcher", name: "processBatch", lean: "v2_effMot", sliceAt: "maxOperationTime := r.maxOperationTime", sliceN: 2, sliceOut: []string{"maxOperationTime"},
 			inputs: map[string]string{"r.maxOperationTime": "mot:int", "watcher.MaxOperationTime()": "wMot:int"}},
 		{file: "batcher.go", recv: "batcher", name: "applyDefaults", lean: "v2_applyDefaults", view: "_cfg"},
